@@ -355,7 +355,7 @@ Fixpoint tbl_open (t : list aead_row) (k a n c : bytes) : option bytes :=
   match t with
   | [] => None
   | (k', a', n', c', p) :: r =>
-      if Bytes.bytes_eqb k k' && Bytes.bytes_eqb a a' && Bytes.bytes_eqb n n' && Bytes.bytes_eqb c c' then Some p
+      if Bytes.bytes_eqb n n' && Bytes.bytes_eqb k k' && Bytes.bytes_eqb a a' && Bytes.bytes_eqb c c' then Some p
       else tbl_open r k a n c
   end.
 Fixpoint tbl_assoc (t : list (bytes * bytes)) (x : bytes) : option bytes :=
